@@ -50,6 +50,8 @@ ASSUMPTIONS = [
     "Literal members are written in one canonical order per program (Literal[1,'a'] == Literal['a',1] share a context key; "
     "membership is order-insensitive)",
     "JSON-text source shape: integers within 64 bits (the default decoder, orjson, reads larger ones as floats; C02/C14 state the same range)",
+    "model vs real is not compared on an input containing a set of >= 2 elements when the outcomes differ and the set can reach a "
+    "positional routine (union member or junk input): the result then depends on the hash order of the real set",
     "the metamorphic oracle decomposes only inputs in a plain shape (list/tuple/set/deque for collections, dict for mappings "
     "and structured classes); other inputs are judged by the correspondence alone",
 ]
@@ -588,7 +590,7 @@ def _count_nodes(graph, pred):
     return sum(rx.count(t, pred) for _, t in graph)
 
 
-def judge(res, jobs, real, focus_only=False):
+def judge(res, jobs, real):
     """Second phase: one driver batch (validator, model um/mar, tree run), then bookkeeping."""
     lines, index = [], []
     for ji, (job, ro) in enumerate(zip(jobs, real)):
@@ -710,6 +712,41 @@ def judge(res, jobs, real, focus_only=False):
                                          "input": inp, "detail": rec["shapes_bad"], **({"finding": FINDING} if tagged else {})})
 
 
+def _big_set(vj):
+    """Does the value contain a set with two or more elements (whose iteration order is hash order)?"""
+    if not isinstance(vj, list) or not vj:
+        return False
+    if vj[0] in ("s", "fs"):
+        return len(vj[1]) >= 2 or any(_big_set(x) for x in vj[1])
+    if vj[0] in ("l", "t", "dq", "it"):
+        return any(_big_set(x) for x in vj[1])
+    if vj[0] == "d":
+        return any(_big_set(k) or _big_set(v) for k, v in vj[1])
+    if vj[0] == "o":
+        return any(_big_set(v) for _, v in vj[2])
+    return False
+
+
+def _has_union(ts, prog, seen=None):
+    b = _body(ts)
+    tag = b[0]
+    if tag == "union":
+        return True
+    if tag in ("coll", "wrap"):
+        return _has_union(b[2], prog, seen)
+    if tag == "tuple":
+        return any(_has_union(e, prog, seen) for e in b[1])
+    if tag == "dict":
+        return _has_union(b[1], prog, seen) or _has_union(b[2], prog, seen)
+    if tag == "cls":
+        seen = set() if seen is None else seen
+        if b[1] in seen:
+            return False
+        seen.add(b[1])
+        return any(_has_union(ft, prog, seen) for _, ft in prog["classes"][b[1]]["fields"])
+    return False
+
+
 def _compare(res, what, inp, r_, m_, unordered, discrepancy):
     if core.model_skips(m_):
         res.skipped += 1
@@ -717,6 +754,12 @@ def _compare(res, what, inp, r_, m_, unordered, discrepancy):
         return
     if core.same(r_, m_, unordered=unordered):
         res.count(f"{what}:agree:" + ("ok" if "ok" in r_ else r_["err"]))
+        return
+    if _big_set(inp["val"]) and (inp["case"]["kind"] == "junk" or _has_union(inp["root"], inp["prog"])):
+        # a set handed to a positional routine (fixed tuple, mapping, struct) by a union member or as junk:
+        # which element lands where is the hash order of the real set, which the model does not have
+        res.skipped += 1
+        res.count(f"{what}:set-order-dependent(not compared)")
         return
     res.count(f"{what}:DISAGREE")
     discrepancy(what, inp, {k: r_[k] for k in r_ if k in ("ok", "err", "msg")}, m_)
@@ -753,10 +796,7 @@ def witness(fid):
         import typing
         import typelib
 
-        @dataclasses.dataclass
-        class C:
-            a: typing.Union[int, str]
-            b: typing.Union[str, int]
+        C = dataclasses.make_dataclass("C", [("a", typing.Union[int, str]), ("b", typing.Union[str, int])])
         got = typelib.unmarshal(C, {"a": "5", "b": "5"})
         alone = "5"     # what unmarshal(Union[str, int], "5") gives in a cold process: str accepts first
         return got.b != alone
